@@ -9,14 +9,17 @@ file so that the driver can evaluate them on generated workbooks.
 namespace Pyxv.Backends
 open Pyxv
 
-/-- specification: drop the trailing elements satisfying `p` (and nothing else) -/
-def stripTrailing {α} (p : α → Bool) (l : List α) : List α := (l.reverse.dropWhile p).reverse
-
 /-- every run of empty rows that is *followed by a non-empty row* has length ≤ `lim`
 (`k` = empties seen immediately before). Decidable form. -/
 def runsInt {α} (lim : Nat) : Nat → List (List α) → Bool
   | _, [] => true
   | k, r :: rest => if r.isEmpty then runsInt lim (k + 1) rest else decide (k ≤ lim) && runsInt lim 0 rest
+
+/-- the rows of a sheet as the dict container has them -/
+def dictRows (s : Sheet) : List KRow := s.rows.map (sheetRow s.header)
+
+/-- the last row of the sheet is not blank (trailing blank rows are dropped by every reader) -/
+def noTrailingBlank (s : Sheet) : Bool := stripTrailing (·.isEmpty) (dictRows s) == dictRows s
 
 end Pyxv.Backends
 
@@ -38,15 +41,15 @@ supported sheet (others are skipped, or read as `survey` when alone) -/
 def nameOK (n : Str) : Bool :=
   cellOK n && n != [] && isAscii n && supported.contains (lowerAscii n)
 
-/-- data row: cells stripped and one-line; not blank (blank rows are dropped: F16).  Cells beyond
-the header row are ignored by `md_to_dict` exactly as by the dict container. -/
-def rowOK (r : List Str) : Bool :=
-  r.all cellOK && r.any (· != [])
+/-- data row: cells stripped and one-line.  Blank rows are allowed (they are kept); cells beyond the
+header row are ignored by `md_to_dict` exactly as by the dict container. -/
+def rowOK (r : List Str) : Bool := r.all cellOK
 
-/-- header non-empty, all header cells non-empty (an empty one becomes the key `None`) -/
+/-- header non-empty, all header cells non-empty (an empty one becomes the key `None`); the last row
+is not blank (trailing blank rows are dropped) -/
 def sheetOK (s : Sheet) : Bool :=
   nameOK s.name && s.header != [] && s.header.all (fun c => cellOK c && c != []) &&
-    s.rows.all rowOK
+    s.rows.all rowOK && noTrailingBlank s
 
 /-- the workbooks `md_to_dict ∘ renderMd` reads back exactly; names distinct after `lower()`.
 (Non-emptiness of the workbook follows from `isMarkdownTable (renderMd wb)`.) -/
@@ -62,10 +65,11 @@ open Pyxv
 (non-empty list follows). -/
 def cellsOK (r : List Str) : Bool := r.all (fun c => strip c = c) && r.any (· ≠ [])
 
-/-- a data row as `csv_to_dict` keeps it: the cells under the header are stripped (cells beyond the
-header are ignored by `zip`), and some cell is non-blank (otherwise the row is dropped, F16). -/
+/-- a data row as `csv_to_dict` reads it: at least one cell (a record with only the title field is a
+sheet-title record), the cells under the header stripped (cells beyond the header are ignored by
+`zip`).  Blank rows are allowed (they are kept). -/
 def rowOK (hdr r : List Str) : Bool :=
-  (r.take hdr.length).all (fun c => strip c = c) && r.any (fun c => strip c ≠ [])
+  !r.isEmpty && (r.take hdr.length).all (fun c => strip c = c)
 
 /-- `okNames prev wb`: every sheet of `wb` has a non-empty name inside the modelled fragment
 (`weirdName`), whose lower-cased form differs from those of `prev` and of the earlier sheets; a
@@ -74,7 +78,7 @@ def okNames : List Str → Workbook → Bool
   | _, [] => true
   | prev, s :: wb =>
     !s.name.isEmpty && !weirdName s.name && !(prev.map lowerAscii).contains (lowerAscii s.name)
-      && cellsOK s.header && s.rows.all (rowOK s.header) && okNames (prev ++ [s.name]) wb
+      && cellsOK s.header && s.rows.all (rowOK s.header) && noTrailingBlank s && okNames (prev ++ [s.name]) wb
 
 /-- The workbooks whose CSV rendering `csv_to_dict` reads back exactly. -/
 def CsvOK (wb : Workbook) : Bool := okNames [] wb
@@ -89,18 +93,16 @@ def nodupB : List Str → Bool
   | [] => true
   | x :: xs => !xs.contains x && nodupB xs
 
-/-- the rows of a sheet as the dict container has them -/
-def dictRows (s : Sheet) : List KRow := s.rows.map (sheetRow s.header)
-
 /-- a sheet that `x*_to_dict_normal_sheet` reads back exactly from any typed grid showing it:
 an XLSForm sheet name (others are skipped); header cells non-blank, already clean (stripped, no
 double spaces) and pairwise different; every block of blank rows followed by data has at most 60
-rows (the limit of `get_excel_rows`); no trailing blank row (those are trimmed). Blank rows inside
-the data are *kept* (unlike md/csv: F16). -/
+rows (the limit of `get_excel_rows`); no trailing blank row (those are trimmed); no U+00A0 in a data
+cell (`cellText` never delivers one, so no cell could show it). Blank rows inside the data are kept. -/
 def sheetOK (s : Sheet) : Bool :=
   isAscii s.name && supported.contains (lowerAscii s.name) &&
     s.header.all (fun h => !allSpace h && cleanHeader h == h) && nodupB s.header &&
-    runsInt Gen.maxEmptyRowRun 0 (dictRows s) && stripTrailing (·.isEmpty) (dictRows s) == dictRows s
+    runsInt Gen.maxEmptyRowRun 0 (dictRows s) && noTrailingBlank s &&
+    s.rows.all (fun r => r.all fun c => !c.contains nbsp)
 
 /-- decidable form of `Excel.Shows`: the grid's first row is the header as text cells and every data
 cell is read by `cellText` as the sheet's text -/
